@@ -766,6 +766,89 @@ fn yo_hms_to_utc(
     ))
 }
 
+// Verification hooks: read-only views of private items
+#[cfg(feature = "verif-hooks")]
+#[doc(hidden)]
+#[allow(missing_docs)]
+pub mod verif_hooks {
+    use super::{MessageDecodeErr, MessageHeader, Phenomenon, SignificanceLevel};
+    use strum::IntoEnumIterator;
+
+    pub const PREFIX_MESSAGE_START: &str = super::PREFIX_MESSAGE_START;
+    pub const PREFIX_MESSAGE_END: &str = super::PREFIX_MESSAGE_END;
+    pub const LOCATION_NATIONAL: &str = MessageHeader::LOCATION_NATIONAL;
+
+    pub fn offsets() -> Vec<(&'static str, usize)> {
+        vec![
+            ("OFFSET_ORG", MessageHeader::OFFSET_ORG),
+            ("OFFSET_EVT", MessageHeader::OFFSET_EVT),
+            ("OFFSET_AREA_START", MessageHeader::OFFSET_AREA_START),
+            (
+                "OFFSET_FROMPLUS_VALIDTIME",
+                MessageHeader::OFFSET_FROMPLUS_VALIDTIME,
+            ),
+            (
+                "OFFSET_FROMPLUS_ISSUETIME",
+                MessageHeader::OFFSET_FROMPLUS_ISSUETIME,
+            ),
+            (
+                "OFFSET_FROMPLUS_CALLSIGN",
+                MessageHeader::OFFSET_FROMPLUS_CALLSIGN,
+            ),
+            (
+                "OFFSET_FROMEND_CALLSIGN_END",
+                MessageHeader::OFFSET_FROMEND_CALLSIGN_END,
+            ),
+        ]
+    }
+
+    pub fn check_header(hdr: &str) -> Result<(usize, usize), MessageDecodeErr> {
+        super::check_header(hdr)
+    }
+
+    pub fn header_offset_time(hdr: &MessageHeader) -> usize {
+        hdr.offset_time
+    }
+
+    #[cfg(feature = "chrono")]
+    pub fn calculate_issue_time(
+        message: (u16, u8, u8),
+        received: (i32, u32),
+    ) -> Result<chrono::DateTime<chrono::Utc>, super::InvalidDateErr> {
+        super::calculate_issue_time(message, received)
+    }
+
+    // (variant name, brief, full pattern, national, test, weather)
+    pub fn phenomena() -> Vec<(String, &'static str, &'static str, bool, bool, bool)> {
+        Phenomenon::iter()
+            .map(|p| {
+                (
+                    format!("{:?}", p),
+                    p.as_brief_str(),
+                    p.as_full_pattern_str(),
+                    p.is_national(),
+                    p.is_test(),
+                    p.is_weather(),
+                )
+            })
+            .collect()
+    }
+
+    // (variant name, code, display, numeric)
+    pub fn significances() -> Vec<(String, &'static str, &'static str, u8)> {
+        SignificanceLevel::iter()
+            .map(|s| {
+                (
+                    format!("{:?}", s),
+                    s.as_code_str(),
+                    s.as_display_str(),
+                    s as u8,
+                )
+            })
+            .collect()
+    }
+}
+
 #[cfg(test)]
 mod tests {
     use super::*;
